@@ -350,6 +350,45 @@ pub fn s_langid_bytes() -> SBoxedStrategy<Vec<u8>> {
         .sboxed()
 }
 
+/// long language identifiers: 5-16 variants (60-150 bytes), to cross any length-related limit
+pub fn s_langid_long_bytes() -> SBoxedStrategy<Vec<u8>> {
+    (
+        s_language(),
+        proptest::option::weighted(0.6, s_script()),
+        proptest::option::weighted(0.6, s_region()),
+        vec(s_variant(), 5..=16),
+        prop_oneof![2 => Just(0u64), 2 => any::<u64>(), 1 => Just(u64::MAX)],
+        prop_oneof![3 => Just(0u64), 1 => any::<u64>()],
+    )
+        .prop_map(|(lang, script, region, variants, cm, sm)| {
+            let id = LangAst { lang, script, region, variants };
+            let mut t = vec![];
+            id.tokens(&mut t);
+            render_tokens(&t, cm, sm)
+        })
+        .sboxed()
+}
+
+/// long locales: a long language identifier followed by many keywords / tfields / private tags
+pub fn s_locale_long_bytes() -> SBoxedStrategy<Vec<u8>> {
+    (s_ast(), vec(s_variant(), 4..=10), vec((s_key(), vec(s_value(), 1..=3)), 3..=8), vec(s_private(), 3..=10))
+        .prop_map(|(mut a, vars, kws, private)| {
+            a.id.variants.extend(vars);
+            let mut seen = std::collections::BTreeSet::new();
+            for (k, _) in &a.kws {
+                seen.insert(k.clone());
+            }
+            for (k, v) in kws {
+                if seen.insert(k.clone()) {
+                    a.kws.push((k, v));
+                }
+            }
+            a.private.extend(private);
+            a.render()
+        })
+        .sboxed()
+}
+
 // ------------------------------------------------------------------------------------------
 // G3: near-miss mutation
 
